@@ -393,10 +393,10 @@ Definition step (o : op) : M :=
   match o with
   | OCreate p => create p
   | OUpdatePlan id rs st _ => updatePlan id rs st
-  | OUpdateBlock id st => updateBlock id st
-  | OUpdateChecks id st => updateChecks id st
-  | OUpdateSequence id st => updateSequence id st
-  | OUpdateAction id st atts => updateAction id st atts
+  | OUpdateBlock _ id st => updateBlock id st
+  | OUpdateChecks _ id st => updateChecks id st
+  | OUpdateSequence _ id st => updateSequence id st
+  | OUpdateAction _ id st atts => updateAction id st atts
   | ODelete id => delete id
   end.
 
